@@ -55,7 +55,7 @@ use stun_rs::{
 const KEY: &str = "pw";
 
 #[derive(Clone, Copy, PartialEq, Eq, Debug)]
-enum Fam {
+pub enum Fam {
     Addr,
     XorAddr,
     U16,
@@ -85,7 +85,7 @@ enum Fam {
 }
 
 /// the 38 registered kinds (type code as the harness believes it; checked against `get_type()` at start)
-const KINDS: [(u16, Fam); 38] = [
+pub const KINDS: [(u16, Fam); 38] = [
     (0x0001, Fam::Addr),
     (0x0003, Fam::U32),
     (0x0006, Fam::User),
@@ -218,7 +218,7 @@ fn alg_tok(a: &PasswordAlgorithm) -> String {
     format!("{}.{}", u16::from(a.algorithm()), opt_tok(a.parameters()))
 }
 
-fn render(a: &StunAttribute) -> String {
+pub fn render(a: &StunAttribute) -> String {
     match a {
         StunAttribute::MappedAddress(x) => addr_tok(x.socket_address()),
         StunAttribute::AlternateServer(x) => addr_tok(x.socket_address()),
@@ -359,7 +359,7 @@ fn family_of(n: &str) -> Option<AddressFamily> {
 }
 
 /// build the attribute of type `ty` described by `tok` through the public API; None when there is no such value
-fn build(ty: u16, tok: &str) -> Option<StunAttribute> {
+pub fn build(ty: u16, tok: &str) -> Option<StunAttribute> {
     let f: Vec<&str> = tok.split(':').collect();
     match f[0] {
         "addr" => {
@@ -524,7 +524,7 @@ fn build(ty: u16, tok: &str) -> Option<StunAttribute> {
 
 /// replay of an E record: the token is the stored value; the quoted-string constructors trim, and the known
 /// non-canonical values (D8) are only reachable from an input with a trailing quoted `"`
-fn build_stored(ty: u16, tok: &str) -> Option<StunAttribute> {
+pub fn build_stored(ty: u16, tok: &str) -> Option<StunAttribute> {
     if let Some(a) = build(ty, tok) {
         if render(&a) == tok {
             return Some(a);
@@ -575,7 +575,7 @@ fn rec_decode(out: &mut Out, ud: bool, txid: &[u8; 12], ty: u16, val: &[u8]) {
 }
 
 /// the value encoder's result for `attr` in a value buffer of `room` bytes
-fn encode_value(attr: &StunAttribute, txid: &[u8; 12], room: usize) -> Result<Option<Vec<u8>>, ()> {
+pub fn encode_value(attr: &StunAttribute, txid: &[u8; 12], room: usize) -> Result<Option<Vec<u8>>, ()> {
     let msg = StunMessageBuilder::new(BINDING, MessageClass::Request)
         .with_transaction_id(TransactionId::from(*txid))
         .with_attribute(attr.clone())
@@ -740,7 +740,7 @@ fn rand_opt(rng: &mut Rng) -> String {
 }
 
 /// constructor inputs (tokens understood by `build`) for one kind
-fn gen_specs(rng: &mut Rng, round: u64, ty: u16, fam: Fam, big: bool) -> Vec<String> {
+pub fn gen_specs(rng: &mut Rng, round: u64, ty: u16, fam: Fam, big: bool) -> Vec<String> {
     let mut v = vec![];
     let k = 3;
     for i in 0..k {
